@@ -160,6 +160,14 @@ def check(R):
     outer = closure_in(R, ps, ['Subscription::is_expired'])
     sites = closure_arg_sites(co, outer.fn)
     R.floor('subscriptions.remove(predicate) site', len(sites), 1)
+    isites = closure_arg_sites(outer, pred.fn)
+    R.floor('with_state(fabric-existence predicate) site', len(isites), 1)
+    exp = outer.calls('im::subscriptions::Subscription::is_expired')
+    R.floor('is_expired in the removal predicate', len(exp), 1)
+    notexp = prims.track_result(F, outer, exp[0]).failure
+    badp = prims.always_followed_by(outer, [e[1] for e in notexp], [t.bb for t in isites])
+    R.expect('P3', outer.fn, 'every non-expired subscription is checked against the fabric table on every sweep', bool(notexp) and not badp,
+             'is_expired == false -> with_state(fabrics.get(..))', 'a path returns a verdict for a live subscription without consulting the fabric table (e.g. only on some wake-up reasons)')
     cond = _conditional_on(co, sites[0].bb)
     R.expect('P3', co.fn, 'the removal sweep runs on every reporter pass', not cond, 'unconditional within the loop',
              f'the sweep at {co.where(sites[0].bb)} is only reached under condition(s) at {cond}')
